@@ -14,7 +14,7 @@ INFO = {
         'normalisation, because both runs create the same primitive applications). sat models are replayed in floats against the '
         'float evaluation of the reference at 1e-9 relative.'),
     'bounds': {
-        'quick': 'all five models; shapes (1,1),(2,1) x 3 orders, (1,1,1) x 13 orders [TM: (1,1) all orders, (2,1)/(1,1,1) strict orders only]; '
+        'quick': 'all five models; shapes (1,1),(2,1) x 3 orders, (1,1,1) x 13 orders [TM: (1,1) all orders, (2,1) strict orders]; PL/BT with default gamma also 4, 5, 6 and 8 single-player teams, (3,2,1), (2,2,2), (4,4), (8,8), (3,1,4,1), (2,3,1,2,1) on selected outcomes incl. multi-way ties; '
                  'limit_sigma off with default gamma and on with uninterpreted gamma',
         'thorough': '+ (2,2), (1,2,1), (1,1,1,1) x 75 orders for PL/BT; TM (2,1) ties, TM-part (1,1,1) with ties',
     },
@@ -56,6 +56,18 @@ def jobs(tier):
         if tier == 'thorough' and not tm:
             for W in H.weak_orders(4):
                 add(key, (1, 1, 1, 1), W, 'plain', 900, 100)
+    # larger games for PL/BT, default gamma, limit_sigma off: one path each, decided as syntactic identity with the reference
+    big = [((1, 1, 1, 1), (0, 1, 2, 3)), ((1, 1, 1, 1), (2, 0, 0, 1)), ((1, 1, 1, 1), (0, 0, 0, 0)),
+           ((1,) * 5, (0, 1, 2, 3, 4)), ((1,) * 5, (3, 1, 1, 0, 1)), ((1,) * 5, (1, 1, 0, 0, 0)),
+           ((1,) * 6, (5, 4, 3, 2, 1, 0)), ((1,) * 6, (0, 1, 1, 1, 1, 2)),
+           ((3, 2, 1), (1, 0, 1)), ((3, 2, 1), (2, 1, 0)), ((2, 2, 2), (0, 0, 1)), ((4, 4), (1, 0)), ((4, 4), (0, 0)), ((8, 8), (0, 1)),
+           ((3, 1, 4, 1), (0, 1, 1, 2)), ((2, 3, 1, 2, 1), (4, 3, 2, 1, 0))]
+    for key in H.BT_PL:
+        for shape, W in big:
+            add(key, shape, W, 'plain', 900, 30 + 5 * len(shape) ** 2)
+        for shape, W in [((1,) * 8, (0, 1, 2, 3, 4, 5, 6, 7)), ((1,) * 8, (0, 0, 1, 2, 2, 2, 3, 4))]:
+            if key != 'btf' or tier == 'thorough':
+                add(key, shape, W, 'plain', 1200, 400)
     if tier == 'thorough':
         for W in [(0, 1, 2), (2, 0, 1), (1, 0, 1)]:
             add('tmp', (1, 1, 1), W, 'plain', 2400, 1200)
